@@ -5,15 +5,15 @@ CONSTANTS
   Topics <- MC_Topics
   NParts = 2
   Cluster0 <- MC_Cluster0
-  VTab <- MC_VTabA
+  VTab <- MC_VTabB
   CRange <- MC_CRange
   Reqs <- MC_Reqs2
-  Menu <- MC_Menu2
+  Menu <- MC_MenuQ2
   MaxConns = 4
-  MaxMoves = 1
+  MaxMoves = 0
   MaxCancels = 1
   MaxCuts = 1
-  MaxRefresh = 2
+  MaxRefresh = 0
   MaxExpire = 0
   MaxCloseIdle = 0
   Hist = TRUE
